@@ -40,14 +40,25 @@ def run(repo, col):
     if len(paths) < 10:
         raise AnalysisError("add_atom: only %d paths" % len(paths))
     FACTS = "%s in self.facts" % ident
+    # summaries (inlining bound 1): a helper method of the class that on every path draws with self.sample_value and multiplies
+    # self.probability by the drawn value's probability counts as "draw + accounting" at its call sites
+    draw_helpers = set()
+    for hname, h in c.methods.items():
+        if hname in ("add_atom", "sample_value"):
+            continue
+        hp = dtable.extract(h.node, opaque_loops=True)
+        live = [q for q in hp if q.end != "raise"]
+        if live and all(any(fn == "self.sample_value" for fn, _, _ in q.calls) and
+                        any(fn == "<augstore *>" and a[0] == "self.probability" for fn, a, _ in q.calls) for q in live):
+            draw_helpers.add("self.%s" % hname)
     n_draw = n_cached = 0
     probs = {"M1": [], "M2": [], "M3": [], "M4": []}
     for p in paths:
         conds = [(s, t) for s, t, _ in p.conds]
         cd = dict(conds)
         calls = [(fn, a) for fn, a, _ in p.calls]
-        draws = [fn for fn, a in calls if fn in ("random.random", "self.sample_value")]
-        acc_prob = [a for fn, a in calls if fn == "<augstore *>" and a[0] == "self.probability"]
+        draws = [fn for fn, a in calls if fn in ("random.random", "self.sample_value") or fn in draw_helpers]
+        acc_prob = [a for fn, a in calls if fn == "<augstore *>" and a[0] == "self.probability"] + [["self.probability", "<%s>" % fn] for fn, a in calls if fn in draw_helpers]
         acc_grp = [a for fn, a in calls if fn == "<store>" and a[0].startswith("self.groups[")]
         memo = [a for fn, a in calls if fn == "<store>" and a[0] == "self.facts[%s]" % ident]
         bad_acc = [fn for fn, a in calls if fn.startswith("<augstore") and a[0] == "self.probability" and fn != "<augstore *>"]
@@ -92,7 +103,7 @@ def run(repo, col):
                 continue
             if rem.startswith("(") and rem.endswith(")"):
                 rem = rem[1:-1]
-            if rem not in ("1.0", "self.groups[%s[:-1]]" % ident):
+            if rem not in ("1.0", "self.groups[%s[:-1]]" % ident, "self.groups.get(%s[:-1], 1.0)" % ident):
                 probs["M4"].append("the remaining mass must be 1.0 for a fresh group or self.groups[origin] (found %s)" % rem)
             if t:
                 if [a[1] for a in acc_prob] != [pr]:
@@ -114,7 +125,7 @@ def run(repo, col):
                 probs["M4"].append("a closed or exhausted group must yield FALSE")
             if acc_prob:
                 probs["M4"].append("a closed or exhausted group must not change the sample probability")
-    if n_draw < 6 or n_cached < 2:
+    if n_draw < 4 or n_cached < 2:
         raise AnalysisError("add_atom decision table incomplete: %d drawing paths, %d memoised paths" % (n_draw, n_cached))
     for rid, lst in probs.items():
         col.decide(rid, m, f.node, not lst, "holds on all %d paths" % len(paths), "SampledFormula.add_atom: %s" % "; ".join(sorted(set(lst))),
@@ -126,11 +137,29 @@ def run(repo, col):
     cp = c.methods.get("compute_probability")
     if cp is None:
         raise AnalysisError("SampledFormula.compute_probability missing")
-    loops = [n for n in walk_no_nested(cp.node) if isinstance(n, ast.For) and norm(n.iter) == "self.groups.items()"]
+    loops = [n for n in walk_no_nested(cp.node) if isinstance(n, ast.For) and norm(n.iter) in ("self.groups.items()", "self.groups.values()")]
     ok2 = False
-    if loops and isinstance(loops[0].target, ast.Tuple):
+    if len(loops) != 1:
+        raise AnalysisError("compute_probability: loop over self.groups not found")
+    pv = None
+    if norm(loops[0].iter).endswith(".items()") and isinstance(loops[0].target, ast.Tuple) and len(loops[0].target.elts) == 2 and isinstance(loops[0].target.elts[1], ast.Name):
         pv = loops[0].target.elts[1].id
-        ok2 = any(isinstance(s, ast.If) and norm(s.test) == "%s is not None" % pv and any(norm(x) == "self.probability *= %s" % pv for x in s.body) for s in loops[0].body)
+    elif norm(loops[0].iter).endswith(".values()") and isinstance(loops[0].target, ast.Name):
+        pv = loops[0].target.id
+    if pv is None:
+        raise AnalysisError("compute_probability: loop target not understood")
+    bp = dtable.extract_block(loops[0].body, opaque_loops=True)
+    ok2 = bool(bp)
+    for q in bp:
+        cd = dict((s_, t) for s_, t, _ in q.conds)
+        mult = [a_ for fn, a_, _ in q.calls if fn.startswith("<augstore") and a_[0] == "self.probability"]
+        others = [fn for fn, a_, _ in q.calls if fn.startswith("<augstore") and a_[0] == "self.probability" and fn != "<augstore *>"]
+        if cd.get("%s is None" % pv) is False:
+            ok2 = ok2 and [a_[1] for a_ in mult] == [pv] and not others and q.end in ("fall", "continue")
+        elif cd.get("%s is None" % pv) is True:
+            ok2 = ok2 and not mult and q.end in ("fall", "continue")
+        else:
+            ok2 = False
     col.decide("M5", m, cp.node, ok2, "the remaining mass of every unresolved group is multiplied in",
                "compute_probability must multiply self.probability by the remaining mass of each group in which no head was chosen (and skip closed groups)",
                construct="def compute_probability", function="SampledFormula.compute_probability")
